@@ -14,7 +14,7 @@ import math
 
 import numpy as np
 
-from ..core import Unit, Skip, SolverRaised, logu, uni, choice
+from ..core import Unit, Skip, SolverRaised, logu, uni, choice, sgn
 from .. import catalogue as C
 from .. import riemann_common as RC
 from .c16 import make_eos
@@ -73,7 +73,18 @@ def run_rm(ctx, p):
     A = ctx.call(si, x, t)
     B = ctx.call(sg, x, t)
     pg = RC.pattern_of(sg.soln_type)
-    ctx.observe("route.riemann", "IGEOS_Solver~GenEOS_Solver", pg == pat, branch="pattern " + pat, detail=dict(igeos=pat, geneos=pg, st=st))
+    if pg != pat:
+        # next to a boundary between two patterns the routes may legitimately name a wave of negligible strength differently
+        # (shock or fan of relative strength below the general route's accuracy, 2e-4): decided on the ideal-gas star pressure
+        ic = 1 if pat[0] == "S" else 2
+        xs = xd0 + t * V[ic]
+        ps = float(ctx.call(si, np.array([xs - 1e-9 * max(abs(xs), span)]), t)["pressure"][0])
+        weak = all(abs(ps / pk - 1.0) <= 2e-4 for a_, b_, pk in ((pat[0], pg[0], st["pl"]), (pat[2], pg[2], st["pr"])) if a_ != b_)
+        if weak:
+            ctx.count("pattern_named_differently_for_a_wave_of_negligible_strength")
+        ctx.observe("route.riemann", "IGEOS_Solver~GenEOS_Solver", weak, branch="pattern " + pat, detail=dict(igeos=pat, geneos=pg, st=st, star_pressure=ps))
+    else:
+        ctx.observe("route.riemann", "IGEOS_Solver~GenEOS_Solver", True, branch="pattern " + pat, detail=dict(igeos=pat, geneos=pg, st=st))
     cs = math.sqrt(st["gl"] * st["pl"] / st["rl"]) + math.sqrt(st["gr"] * st["pr"] / st["rr"])
     du = "du=0" if st["ul"] == st["ur"] else "du!=0"
     # "Agreement is to the accuracy of the less accurate route": the general-EOS route interpolates linearly in tables of
@@ -277,16 +288,19 @@ def run_sw(ctx, p):
 def gen_rod(rng, i, tier):
     L = logu(rng, 0.5, 5)
     return dict(L=L, kappa=logu(rng, 0.1, 10), TL=uni(rng, 0, 5), TR=uni(rng, 0, 5), T1=uni(rng, -2, 3), F2=uni(rng, -2, 2),
-                Nsum=int(choice(rng, [50, 200, 1000])), x=[uni(rng, 0, 1) for _ in range(9)], tf=logu(rng, 1e-3, 1.0))
+                Nsum=int(choice(rng, [50, 200, 1000])), x=[uni(rng, 0, 1) for _ in range(9)], tf=logu(rng, 1e-3, 1.0),
+                # the same boundary conditions written with non-unit coefficients (k dT/dx = k q, outward normal, ...)
+                k=[1.0, 1.0, 1.0, 1.0] if i % 3 == 0 else [sgn(rng) * logu(rng, 0.3, 3) for _ in range(4)])
 
 
 def run_rod(ctx, p):
     from exactpack.solvers.heat.rod1d import Rod1D
     L = p["L"]
+    k = p.get("k", [1.0, 1.0, 1.0, 1.0])
     a = ctx.make(Rod1D, Nsum=p["Nsum"], kappa=p["kappa"], TL=p["TL"], TR=p["TR"], L=L,
-                 alpha1=1.0, beta1=0.0, gamma1=p["T1"], alpha2=0.0, beta2=1.0, gamma2=p["F2"])
+                 alpha1=k[0], beta1=0.0, gamma1=k[0] * p["T1"], alpha2=0.0, beta2=k[1], gamma2=k[1] * p["F2"])
     b = ctx.make(Rod1D, Nsum=p["Nsum"], kappa=p["kappa"], TL=p["TR"], TR=p["TL"], L=L,
-                 alpha1=0.0, beta1=1.0, gamma1=-p["F2"], alpha2=1.0, beta2=0.0, gamma2=p["T1"])
+                 alpha1=0.0, beta1=k[2], gamma1=-k[2] * p["F2"], alpha2=k[3], beta2=0.0, gamma2=k[3] * p["T1"])
     x = np.array(sorted(p["x"])) * L
     t = p["tf"] * L * L / p["kappa"]
     A = ctx.call(a, x, t)
